@@ -48,6 +48,7 @@ class Sc:
     assoc: frozenset = E
     marks: frozenset = E
     gone: frozenset = E  # iterations whose element the value stemmed from before it was put into a collection that outlives them
+    vet: bool = False  # was added to its collection through a key (`d[k].append(x)`) and checked against that key there
     none: bool = False  # may be None
     agg: bool = False  # aggregate of a collection (", ".join(xs), len(xs)): its truthiness is an emptiness test
 
@@ -123,6 +124,7 @@ class CollCell:
         self.part: set = set()
         self.site = site
         self.born = born  # iterations that were running when the collection was created
+        self.shared = ""  # where this one object was stored under many keys of a dictionary (dict.fromkeys(keys, obj), d[k] = obj in a loop)
         self.scope = born  # iterations of which the collection is a per-element temporary (shrinks when it is stored in a longer-lived container)
 
 
@@ -131,6 +133,7 @@ class DictCell:
         self.entries: set = set()  # (key value, value value)
         self.site = site
         self.born = born
+        self.shared = ""
         self.scope = born
 
 
@@ -183,6 +186,7 @@ class Interp:
         self.writes: set = set()  # (object cell key, field) written so far
         self.stale: set = set()  # fields holding a value of an earlier call (see rules R6)
         self.stale_reads: list = []
+        self.ncalls = 0
         self._gen_cache: dict[str, bool] = {}
         self.in_cond = 0
         self.pseudo: set = set()  # identities of elements selected by index / pop (always current)
@@ -273,7 +277,20 @@ class Interp:
         elif self.collectors and self.collectors[-1][0] == self.uncertain:
             self.collectors[-1][1].add(fld)
 
-    def store_entry(self, ref: Ref, k: frozenset, v: frozenset) -> None:
+    def note_shared(self, k: frozenset, v: frozenset, where: str, implicit_keys: bool = False) -> None:
+        """`d[k] = obj` for many keys k with one and the same mutable obj (created by a literal / constructor outside the loop
+        that supplies the keys): whatever is later added through one key shows under every key."""
+        kl = frozenset(x for sc in self.scalars(k) for x in self.live(sc.eids - sc.gone) if x in self.loop_eids)
+        for sh in v:
+            if isinstance(sh, Ref) and sh.kind in ("coll", "dict") and isinstance(sh.key, tuple) and sh.key[-1] in ("lit", "lib", "comp", "copy", "bin"):
+                c = self.cells[sh.key]
+                if (implicit_keys or (kl and not (kl & c.born))) and not c.shared:
+                    c.shared = where
+                    self.version += 1
+
+    def store_entry(self, ref: Ref, k: frozenset, v: frozenset, explicit: str = "") -> None:
+        if explicit:
+            self.note_shared(k, v, explicit)
         c = self.cells[ref.key]
         k, v = self.escape(c, k), self.escape(c, v)
         if (k, v) not in c.entries:
@@ -435,9 +452,9 @@ class Interp:
             m = self.link_mark(groups, fr, node)
             if m is not None:
                 marks.add(m)
-        return V(Sc(frozenset(roles), frozenset(srcs), frozenset(eids), frozenset(assoc), frozenset(marks), frozenset(gone or ()), none, agg))
+        return V(Sc(frozenset(roles), frozenset(srcs), frozenset(eids), frozenset(assoc), frozenset(marks), frozenset(gone or ()), False, none, agg))
 
-    def link_mark(self, groups: list[list[Sc]], fr: Frame | None, node: ast.AST | None):
+    def link_mark(self, groups: list[list[Sc]], fr: Frame | None, node: ast.AST | None, force: str = ""):
         """A ("mix", ...) mark when subject content and object content of *different* violation pairs are combined."""
         for i in range(len(groups)):
             for j in range(len(groups)):
@@ -450,10 +467,17 @@ class Interp:
                         if b.roles != {"O"} or not b.srcs:
                             continue
                         la, lb = self.live(a.eids - a.gone), self.live(b.eids - b.gone)
-                        if la & lb or self.live(b.assoc - b.gone) & la or self.live(a.assoc - a.gone) & lb or self.live(a.assoc - a.gone) & self.live(b.assoc - b.gone):
+                        if not force and (la & lb or self.live(b.assoc - b.gone) & la or self.live(a.assoc - a.gone) & lb or self.live(a.assoc - a.gone) & self.live(b.assoc - b.gone)):
                             continue
-                        return ("mix", self.site(fr, node), self.where(fr, node) if fr is not None and node is not None else "")
+                        return ("mix", self.site(fr, node), (self.where(fr, node) if fr is not None and node is not None else "") + (f" - the collection is one object shared by all keys ({force})" if force else ""))
         return None
+
+    @staticmethod
+    def unvet(v: frozenset) -> frozenset:
+        """Members copied into another collection are ordinary members there (they were checked against the key of the old one)."""
+        if not any(isinstance(sh, Sc) and sh.vet for sh in v):
+            return v
+        return frozenset(replace(sh, vet=False) if isinstance(sh, Sc) and sh.vet else sh for sh in v)
 
     def retag(self, v: frozenset, e: int, key, extra_marks=()) -> frozenset:
         """The current element of iteration `e`: scalars of the element derive from it, members of nested collections are
@@ -774,9 +798,16 @@ class Interp:
         ex = self.early_exit(s)
         head = dict(env)
         brk = None
+        itv = None
+        iter_calls = False
         for _round in range(12):
             v0 = self.version
-            itv = self.ev(s.iter, head, fr)
+            if itv is None or not iter_calls:
+                # views (d.items(), sorted(x), ...) are refreshed every round; a source computed by repository functions is
+                # evaluated once (its result cells are shared and keep growing anyway)
+                c0 = self.ncalls
+                itv = self.ev(s.iter, head, fr)
+                iter_calls = self.ncalls != c0
             elem = self.elems(itv)
             # one pass per alternative shape of the element keeps the provenance of different sources apart
             alts = [V(sh) for sh in elem] if 0 < len(elem) <= 64 else [elem]
@@ -879,7 +910,7 @@ class Interp:
             key = self.ev(t.slice, env, fr) if not isinstance(t.slice, ast.Slice) else E
             for sh in base:
                 if isinstance(sh, Ref) and sh.kind == "dict":
-                    self.store_entry(sh, key, self.bake(key, v, fr, t))
+                    self.store_entry(sh, key, self.bake(key, v, fr, t), explicit=self.site(fr, t))
                 elif isinstance(sh, Ref) and sh.kind == "coll":
                     self.add(sh, v if not isinstance(t.slice, ast.Slice) else self.elems(v))
             return
@@ -899,9 +930,9 @@ class Interp:
         for sh in cur:
             if isinstance(sh, Ref) and sh.kind == "coll":
                 if isinstance(s.op, (ast.Add, ast.BitOr)):
-                    add = self.elems(rv)
+                    add = self.unvet(self.elems(rv))
                     if key is not None:
-                        add = self.bake(key, add, fr, s)
+                        add = self.bake(key, add, fr, s, self.cell(sh).shared, keyed_add=True)
                     self.add(sh, add)
                     self.note_mutation([sh], add, s, env, fr)
                 new.add(sh)
@@ -919,15 +950,19 @@ class Interp:
         if not isinstance(s.target, ast.Subscript):
             self.assign(s.target, frozenset(new), env, fr)
 
-    def bake(self, key: frozenset, v: frozenset, fr: Frame, node: ast.AST) -> frozenset:
+    def bake(self, key: frozenset, v: frozenset, fr: Frame, node: ast.AST, force: str = "", keyed_add: bool = False) -> frozenset:
         """Value stored under `key`: marked when the key is subject (object) content and the value object (subject) content of
         another violation pair."""
         if not key:
             return v
-        m = self.link_mark([self.scalars(key), self.scalars(v)], fr, node)
-        if m is None:
-            return v
-        return self.with_marks(v, [m], (id(node), fr.inv, "bake"))
+        # a collection stored under a key: members that got there through a key of their own were checked when they were added
+        vs = self.scalars(v) if keyed_add else [sc for sc in self.scalars(v) if not sc.vet]
+        m = self.link_mark([self.scalars(key), vs], fr, node, force)
+        if m is not None:
+            v = self.with_marks(v, [m], (id(node), fr.inv, "bake"))
+        if keyed_add:
+            v = frozenset(replace(sh, vet=True) if isinstance(sh, Sc) else sh for sh in v)
+        return v
 
     def recv_for_mutation(self, e: ast.expr, env: dict, fr: Frame, kind: str) -> tuple[frozenset, frozenset | None]:
         """Containers denoted by an expression in receiver / store position; entries of dicts are created on demand
@@ -1275,9 +1310,9 @@ class Interp:
                 if isinstance(e, ast.DictComp):
                     kv = self.ev(e.key, inner, fr)
                     vv = self.ev(e.value, inner, fr)
-                    self.store_entry(res, kv, self.bake(kv, self.with_marks(vv, marks, (id(e), fr.inv, "cm")), fr, e))
+                    self.store_entry(res, kv, self.bake(kv, self.with_marks(vv, marks, (id(e), fr.inv, "cm")), fr, e), explicit=self.site(fr, e))
                 else:
-                    self.add(res, self.ev(e.elt, inner, fr))
+                    self.add(res, self.unvet(self.ev(e.elt, inner, fr)))
                     if marks:
                         self.add_part(res, marks)
                 return
@@ -1575,6 +1610,7 @@ class Interp:
         intr = self.intrinsics.get(fi.fq) or self.intrinsics.get(f"{fi.module.name}.{fi.qualname}")
         if intr is not None:
             return intr(self, args, kwargs, node, fr)
+        self.ncalls += 1
         inv = (fr.inv if fr is not None else ()) + (id(node),)
         if len(inv) > 40 or self.stack.count(fi.fq) >= 2:
             return self.top(f"recursion / call depth at {fi.fq}")
@@ -1727,17 +1763,17 @@ class Interp:
 
     def coll_method(self, sh: Ref, name: str, args, kwargs, call: ast.Call, env: dict, fr: Frame, key) -> frozenset:
         if name in MUTATORS_ADD1 or name == "insert":
-            v = self.select(args[-1] if args else E, call, env, fr)
+            v = self.unvet(self.select(args[-1] if args else E, call, env, fr))
             if key is not None:
-                v = self.bake(key, v, fr, call)
+                v = self.bake(key, v, fr, call, self.cell(sh).shared, keyed_add=True)
             self.add(sh, v)
             self.note_mutation([sh], v, call, env, fr)
             return NONE_V
         if name in MUTATORS_ADDN:
             for a in args:
-                v = self.elems(a)
+                v = self.unvet(self.elems(a))
                 if key is not None:
-                    v = self.bake(key, v, fr, call)
+                    v = self.bake(key, v, fr, call, self.cell(sh).shared, keyed_add=True)
                 self.add(sh, v)
                 self.note_mutation([sh], v, call, env, fr)
             return NONE_V
@@ -1820,7 +1856,7 @@ class Interp:
                     rest.add(sh)
             if rest or not out:
                 r = self.coll(key, site)
-                self.add(r, self.elems(frozenset(rest)))
+                self.add(r, self.unvet(self.elems(frozenset(rest))))
                 out.add(r)
             return frozenset(out)
         if name in ("operator.itemgetter", "itemgetter", "operator.attrgetter", "attrgetter"):
@@ -1849,6 +1885,15 @@ class Interp:
                     self.add(r, V(Tup((frozenset(kv), V(grp)), site)))
             finally:
                 self.active.pop()
+            return V(r)
+        if name in ("dict.fromkeys", "collections.OrderedDict.fromkeys", "OrderedDict.fromkeys", "collections.defaultdict.fromkeys", "defaultdict.fromkeys") and args:
+            # every key maps to the very same value object
+            r = self.dict_(key, site)
+            val = args[1] if len(args) > 1 else kwargs.get("value", NONE_V)
+            keys = self.elems(args[0])
+            self.note_shared(keys, val, f"{norm(call, 60)} [{site}]", implicit_keys=True)
+            for kk in keys:
+                self.store_entry(r, V(kk), val)
             return V(r)
         if name in ("dict", "collections.defaultdict", "collections.OrderedDict", "defaultdict", "OrderedDict"):
             r = self.dict_(key, site)
@@ -1906,12 +1951,12 @@ class Interp:
         if name in ("itertools.chain", "chain"):
             r = self.coll(key, site)
             for a in args:
-                self.add(r, self.elems(a))
+                self.add(r, self.unvet(self.elems(a)))
             return V(r)
         if name in ("itertools.chain.from_iterable", "chain.from_iterable"):
             r = self.coll(key, site)
             for a in args:
-                self.add(r, self.elems(self.elems(a)))
+                self.add(r, self.unvet(self.elems(self.elems(a))))
             return V(r)
         if name in ("itertools.product", "product"):
             r = self.coll(key, site)
